@@ -653,6 +653,16 @@ def _merge_acctinfo(args: ArgsType, markup: BytesIO) -> None:
         for clsnm, infos in itertools.groupby(acctinfos, key=sortKey)
     ]
 
+    # An account that the server lists more than once (e.g. in the <ACCTINFO>s of
+    # two services) is still one account
+    parsed_args = [
+        {
+            key: list(dict.fromkeys(value)) if isinstance(value, list) else value
+            for key, value in parsed.items()
+        }
+        for parsed in parsed_args
+    ]
+
     # The server's list replaces configured accounts wholesale: an account type
     # of which it lists no active account must not fall through to config files
     discovered: ChainMap = ChainMap(*parsed_args)
